@@ -1,6 +1,6 @@
 #!/bin/bash
 # usage: tools/import_seeds.sh <Cxxb> <base_commit>   (copies /tmp/seed/<Cxxb>/_seed/{1,2,3} into seeded/, removes the worktree)
-T=$1; BASEC=$2; ROUND=${3:-2}; P=${T%[bcd]}
+T=$1; BASEC=$2; ROUND=${3:-2}; P=${T%[b-z]}
 for n in 1 2 3; do
   S=/tmp/seed/$T/_seed/$n; D=/verif/seeded/$T-$n
   [ -d $S ] || { echo "missing $S"; continue; }
